@@ -103,6 +103,7 @@ class C06(Prop):
             'sent_first': st.booleans(),
             'actions': actions,
             'route': st.sampled_from(['triggers', 'response']),
+            'slow_first': st.sampled_from([False, False, False, True]),
             'mode': st.sampled_from(['locals', 'watch', 'locals', 'return', 'exception', 'watch', 'locals']),
             'frame_type': st.sampled_from(['single_frame', 'all_frame']),
             'self_local': st.sampled_from([None, None, None, 0, 1]),
@@ -166,6 +167,18 @@ class C06(Prop):
         at_push = []
         push.on_push = lambda s: at_push.append(fingerprint(s))
 
+        slow_first = bool(recipe.get('slow_first')) and len(actions) >= 2 and mode in ('locals', 'watch')
+        if slow_first:
+            # the first tracepoint on the line takes long (a watch that costs half a second): the time it used up is its
+            # own - the next tracepoint's snapshot is complete on its own
+            out.cls('slow_tracepoint_before_another')
+
+        def slow_w(tp_id):
+            return ['SLOW()'] if slow_first and tp_id == 'tp0' else []
+
+        def SLOW():
+            lab.CLOCK.advance_ms(500)
+            return 'slow'
         if mode in ('locals', 'watch'):
             tps = []
             for i, a in enumerate(actions):
@@ -181,19 +194,19 @@ class C06(Prop):
             try:
                 if recipe['route'] == 'response':
                     from deepproto.proto.tracepoint.v1.tracepoint_pb2 import Metric, MetricType
-                    resp = [TracePointConfig(ID=i, path=path, line_number=line, args=a, watches=watches,
+                    resp = [TracePointConfig(ID=i, path=path, line_number=line, args=a, watches=watches + slow_w(i),
                                              metrics=[Metric(name='m', type=MetricType.COUNTER)] if k == 'metric' else [])
                             for i, a, k in tps]
                     triggers = convert_response(resp)
                 else:
                     from deep.api.tracepoint.tracepoint_config import MetricDefinition
-                    triggers = [build_trigger(i, path, line, a, watches,
+                    triggers = [build_trigger(i, path, line, a, watches + slow_w(i),
                                               [MetricDefinition('m', 'counter')] if k == 'metric' else [])
                                 for i, a, k in tps]
             except BaseException as e:      # noqa
                 raise lab.HarnessError('install failed in C06: %r' % (e,))
             handler, cfg, _ = lab.make_handler(triggers, plugins=[metric_proc, logger], push=push)
-            gen = lab.frame_at(path, line, 'target', frame_locals)
+            gen = lab.frame_at(path, line, 'target', frame_locals, globs={'SLOW': SLOW, '__name__': 'c06_target'})
             try:
                 handler.trace_call(gen.gi_frame, 'line', None)
             except BaseException as e:      # noqa
